@@ -7194,14 +7194,23 @@ let dumpload_world = function
 | cfg :: l ->
   (match l with
    | [] -> (Zneg (XO XH)) :: []
-   | _ :: ops ->
-     (match decode_cfg cfg with
-      | Some c ->
-        let s = final_state c.sc_debug (init_world c) ops in
-        (match w_load_entities (w_dump_entities s) (init_world c) with
-         | Some s' -> dump s'
-         | None -> (Zneg (XI XH)) :: [])
-      | None -> (Zneg (XO XH)) :: []))
+   | l0 :: ops ->
+     (match l0 with
+      | [] -> (Zneg (XO XH)) :: []
+      | k :: l1 ->
+        (match l1 with
+         | [] ->
+           (match decode_cfg cfg with
+            | Some c ->
+              let kk = Z.to_nat k in
+              let tgt = final_state c.sc_debug (init_world c) (firstn kk ops)
+              in
+              let s = final_state c.sc_debug (init_world c) (skipn kk ops) in
+              (match w_load_entities (w_dump_entities s) tgt with
+               | Some s' -> dump s'
+               | None -> (Zneg (XI XH)) :: [])
+            | None -> (Zneg (XO XH)) :: [])
+         | _ :: _ -> (Zneg (XO XH)) :: [])))
 
 (** val row_ent : table -> nat -> ent **)
 
